@@ -149,6 +149,7 @@ def _c01_preds():
              (txrs, r"impl\s+TxOutWitness\s*\{", "TxOutWitness", "surjectionproof_len"),
              (txrs, r"impl\s+TxIn\s*\{", "TxIn", "has_issuance"),
              (txrs, r"impl\s+Transaction\s*\{", "Transaction", "has_witness")]
+    todo.append((src("encode.rs"), r"impl\s+VarInt\s*\{", "VarInt", "size"))
     defs = []
     for text, impl_re, ty, f in todo:
         try:
